@@ -75,6 +75,23 @@ def templates(e: Env, st: Sites, level: str):
     out["Cond(If[Sx]|T)"] = lambda: ("Cond", (e.u(3), ("If", cS("x", e.u(4)), A["T"]())), (e.u(4), A["T"]()))
     out["IfChain(If[Sx]|T|T)"] = lambda: ("IfChain", ((e.u(3), ("If", cS("x", e.u(4)), A["T"]())), (e.u(4), A["T"]())), A["T"]())
     out["If(If[Sy])"] = lambda: ("If", e.u(3), ("If", cS("y", e.u(4)), A["T"]()))
+    # nested loops: Break / Continue of the INNER loop, the variable written after it and read in the inner step / condition /
+    # behind the inner loop
+    def istep():
+        return ("Store", "i", ("Bin", "Add", ("Load", "i"), ("Int", 1)))
+    def nest(body):
+        return ("Seq", A["Sx"](), body)        # x is written first: the final load of x is fine, only y's traffic decides
+    out["Sx+While(For(C;Sy|stepLy))"] = lambda: nest(("While", e.u(5), ("Seq", ("For", ("Store", "i", ("Int", 0)), ("Bin", "Lt", ("Load", "i"), e.u(6)),
+                                                                            ("Seq", AL["Ly"](), istep()), ("Seq", ("If", e.u(7), AL["C"]()), AL["Sy"]())), AL["B"]())))
+    out["Sx+While(For(Sy;C|stepLy))"] = lambda: nest(("While", e.u(5), ("Seq", ("For", ("Store", "i", ("Int", 0)), ("Bin", "Lt", ("Load", "i"), e.u(6)),
+                                                                            ("Seq", AL["Ly"](), istep()), ("Seq", AL["Sy"](), ("If", e.u(7), AL["C"]()))), AL["B"]())))
+    out["Sx+For(For(C;Sy|stepLy))"] = lambda: nest(("For", ("Store", "z", ("Int", 0)), ("Bin", "Lt", ("Load", "z"), e.u(5)), ("Store", "z", ("Bin", "Add", ("Load", "z"), ("Int", 1))),
+                                                    ("For", ("Store", "i", ("Int", 0)), ("Bin", "Lt", ("Load", "i"), e.u(6)), ("Seq", AL["Ly"](), istep()),
+                                                     ("Seq", ("If", e.u(7), AL["C"]()), AL["Sy"]()))))
+    out["Sx+While(Sy;While[Ly](C;T))"] = lambda: nest(("While", e.u(5), ("Seq", AL["Sy"](), ("While", ("Bin", "Lt", st.load("y"), e.u(6)), ("Seq", ("If", e.u(7), AL["C"]()), AL["B"]())), AL["B"]())))
+    out["Sx+While(While(B;Sy;B);Ly)"] = lambda: nest(("While", e.u(5), ("Seq", ("While", ("Int", 1), ("Seq", ("If", e.u(7), AL["B"]()), AL["Sy"](), AL["B"]())), AL["Ly"](), AL["B"]())))
+    out["Sx+While(While(Sy;B);Ly)"] = lambda: nest(("While", e.u(5), ("Seq", ("While", ("Int", 1), ("Seq", AL["Sy"](), AL["B"]())), AL["Ly"](), AL["B"]())))
+    out["Sx+While(Sy;While(C;T);Ly)"] = lambda: nest(("While", e.u(5), ("Seq", AL["Sy"](), ("While", e.u(6), ("Seq", ("If", e.u(7), AL["C"]()), AL["B"]())), AL["Ly"](), AL["B"]())))
     out["IfValue"] = lambda: ("Store", "y", ("If", e.u(3), st.load("x"), ("Int", 0)))
     out["CondLoadInCond"] = lambda: ("If", st.load("x"), A["T"]())
     return out
@@ -83,7 +100,7 @@ def templates(e: Env, st: Sites, level: str):
 def rw_family(mode: str, version: int, level: str, seed: int = 0, where: str = "main", nrandom: int = 0, xslot=None, offset: int = 0):
     out = []
     e = Env(mode, version)
-    V = {"x": {"t": "u"}, "y": {"t": "u"}, "i": {"t": "u"}}
+    V = {"x": {"t": "u"}, "y": {"t": "u"}, "i": {"t": "u"}, "z": {"t": "u"}}
     if xslot is not None:
         V["x"] = {"t": "u", "slot": xslot}
     names = sorted(templates(e, Sites(), level))
